@@ -211,6 +211,9 @@ def gen_fault(ch, label, enabled=FAULT_KINDS):
         f["errno"] = ch.choice(label + ".errno", ["ENOSPC", "EIO", "EACCES", "EDQUOT", "EROFS", "EMFILE"])
         if kind == "IOERR" and ch.chance(label + ".persist", 0.35):
             f["persist"] = True  # the condition stays (disk full / read-only): later writes of the same operation fail too
+        elif kind in ("INTERRUPT", "ALLOC", "IOERR", "CONVERT") and ch.chance(label + ".then", 0.2):
+            # a fault sequence: a second fault at whatever is written after the first one (by an error handler, a retry)
+            f["then"] = ch.choice(label + ".thenv", [{"kind": "IOERR", "errno": "EIO", "cut": 0.5}, {"kind": "IOERR", "errno": "ENOSPC", "cut": 0}, {"kind": "INTERRUPT"}])
     else:
         f = {"where": "step", "kind": kind if kind not in ("IOERR", "CONVERT") else "INTERRUPT",
              "pick": ch.choice(label + ".spick", ["near_io", None]), "frac": round(ch.rng.random(), 3),
